@@ -30,6 +30,7 @@ MUTANTS = [
         raise ValueError(""", """    except (ValueError, KeyError) as err:
         raise TypeError(""")]},
     {"id": "c20-index-shifted", "expect": "fire", "edits": [(F, "(char, pos) for pos, char in enumerate(_ALPHABET))", "(char, pos) for pos, char in enumerate(_ALPHABET, 1))")]},
+    {"id": "c20-two-groups-unpadded", "expect": "fire", "edits": [(F, "    while number:\n        number, digit = divmod(number, alpha_len)\n        out += _ALPHABET[digit]\n", "    high, low = divmod(number, alpha_len ** 11)\n    for chunk in (low, high):\n        while chunk:\n            chunk, digit = divmod(chunk, alpha_len)\n            out += _ALPHABET[digit]\n")]},
     # neutral twins
     {"id": "c20-n-mod-floordiv", "expect": "silent", "edits": [(F, "        number, digit = divmod(number, alpha_len)\n", "        digit = number % alpha_len\n        number //= alpha_len\n")]},
     {"id": "c20-n-reversed", "expect": "silent", "edits": [(F, "for char in string[::-1]:", "for char in reversed(string):")]},
